@@ -1,4 +1,5 @@
 import DoitModel.Proofs.C19Final
+import DoitModel.Proofs.C19Text
 /-! # C19 — what is reported is what happened (reports and exit code)
 
 Property theorems only (models: `Model/Run.lean` + `Model/Report.lean`; invariants: `Proofs/Run*.lean`,
@@ -262,5 +263,90 @@ example : Merge (fun w => workerMsgs (if w = 0 then [5] else if w = 1 then [7] e
   refine Merge.cons 0 [] (by simp) ?_
   refine Merge.nil ?_
   intro w; by_cases h0 : w = 0 <;> by_cases h1 : w = 1 <;> simp [h0, h1, workerMsgs]
+
+/-! ### the text reporters (`Model/ReportText.lean`): every reporter-call sequence, every task table -/
+section Text
+open DoitModel.ReportText
+
+/-- `console_decode`: from the progress lines (`.  t` / `-- t` / `!! t`) of everything `ConsoleReporter` wrote one
+    recovers exactly the sequence of (task, executed | up-to-date | ignored) of the visible tasks, in order — nothing
+    else is printed with these prefixes, nothing visible is missing, whatever other calls (failures, runtime errors,
+    `complete_run` anywhere) are interleaved.  Visible: `execute_task` of a task with actions whose full name does not
+    start with `_`; `skip_uptodate` of a task whose name does not start with `_`; every `skip_ignore` -/
+theorem C19_console_decode (fv : Nat) (tk : Nat → TaskI) (cs : List RCall) :
+    decodeProgress (ReportText.run .console fv tk cs).out = cs.filterMap (RCall.happened tk) := by
+  have := run_progress fv tk cs {}
+  simpa [ReportText.run, decodeProgress] using this
+
+/-- `summary_lists_each_failure_once` (ConsoleReporter and ExecutedOnlyReporter): `self.failures` is exactly the
+    failures handed over with `report=True`, in order of occurrence (two failures of the same task are two entries);
+    each got exactly one header line when it was reported; and a `complete_run` at the end of any call sequence
+    writes one block per such failure whose task was executed and for which `show_err or show_out` holds, in that
+    order, each once -/
+theorem C19_summary_lists_each_failure_once (c : Cls) (hc : isCon c = true) (fv : Nat) (tk : Nat → TaskI)
+    (cs : List RCall) :
+    (ReportText.run c fv tk cs).failures = cs.filterMap RCall.reported ∧
+    (ReportText.run c fv tk cs).out.filterMap Line.hdr = cs.filterMap RCall.reported ∧
+    decodeBlocks (summary fv tk (ReportText.run c fv tk cs)) =
+      ((cs.filterMap RCall.reported).filter (shown fv tk)).map (·.1) := by
+  have h := run_failures c hc fv tk cs {}
+  simp only [List.nil_append, List.filterMap_nil] at h
+  refine ⟨h.1, h.2, ?_⟩
+  rw [decodeBlocks_summary]; unfold ReportText.run; rw [h.1]
+
+/-- with the defaults (every failed task executed, task verbosity 0) the summary names every reported failure -/
+theorem C19_summary_default (c : Cls) (hc : isCon c = true) (fv : Nat) (tk : Nat → TaskI) (cs : List RCall)
+    (hd : ∀ t, (tk t).executed = true ∧ (tk t).verb = 0) :
+    decodeBlocks (summary fv tk (ReportText.run c fv tk cs)) = (cs.filterMap RCall.reported).map (·.1) := by
+  rw [(C19_summary_lists_each_failure_once c hc fv tk cs).2.2]
+  congr 1
+  apply List.filter_eq_self.mpr
+  intro p _
+  simp [shown, showErr, showOut, hd p.1]
+
+/-- `executed_only_is_filter`: for every call sequence `ExecutedOnlyReporter` writes what `ConsoleReporter` writes
+    minus the skip lines (`-- t`, `!! t`), keeps the same failure list and runtime errors, and sends the same text
+    to stderr — a custom title, a failure, a summary change nothing about that -/
+theorem C19_executed_only_is_filter (fv : Nat) (tk : Nat → TaskI) (cs : List RCall) :
+    (ReportText.run .executedOnly fv tk cs).out = (ReportText.run .console fv tk cs).out.filter (fun l => !l.isSkip) ∧
+    (ReportText.run .executedOnly fv tk cs).failures = (ReportText.run .console fv tk cs).failures ∧
+    (ReportText.run .executedOnly fv tk cs).err = (ReportText.run .console fv tk cs).err := by
+  have h := run_eo fv tk cs {} {} ⟨rfl, rfl, rfl, rfl⟩
+  exact ⟨h.out, h.failures, h.err⟩
+
+/-- `zero_is_errors_only`: `ZeroReporter` writes nothing to `outstream`, whatever is reported; the runtime errors and
+    cleanup errors go to stderr, in order.  `ErrorOnlyReporter` writes exactly one header + message per failure with
+    `report=True`, in order, and nothing else -/
+theorem C19_zero_is_errors_only (fv : Nat) (tk : Nat → TaskI) (cs : List RCall) :
+    (ReportText.run .zero fv tk cs).out = [] ∧
+    (ReportText.run .zero fv tk cs).err = cs.filterMap (RCall.stderrMsg .zero) ∧
+    (ReportText.run .errorOnly fv tk cs).out =
+      (cs.filterMap RCall.reported).flatMap (fun p => [Line.eoHdr p.1 p.2, Line.failMsg p.2]) ∧
+    (ReportText.run .errorOnly fv tk cs).err = cs.filterMap (RCall.stderrMsg .errorOnly) := by
+  have hz := run_zero .zero rfl fv tk cs {}
+  have he := run_zero .errorOnly rfl fv tk cs {}
+  simp only [List.nil_append] at hz he
+  refine ⟨?_, hz.1, ?_, he.1⟩
+  · simpa [ReportText.run] using hz.2
+  · simpa [ReportText.run] using he.2
+
+/-- non-vacuity: a hidden task, a task without actions, an ignored hidden task, two failures of the same task (one
+    not reported), a runtime error; exact text of the console reporter -/
+def exTk : Nat → TaskI := fun t =>
+  if t = 0 then { name := "a", title := "a => custom" } else if t = 1 then { name := "_h", title := "_h" }
+  else if t = 2 then { name := "g", title := "g", hasActions := false } else { name := "g:_x", title := "g:_x" }
+def exCalls : List RCall :=
+  [.getStatus 0, .execute 0, .addFailure 0 ⟨"TaskFailed", "m1", true⟩, .execute 1, .addSuccess 1, .execute 2,
+   .skipIgn 1, .skipUtd 1, .skipUtd 3, .addFailure 0 ⟨"TaskError", "m2", true⟩, .addFailure 3 ⟨"X", "m3", false⟩,
+   .runtimeError "boom", .complete]
+
+example : decodeProgress (ReportText.run .console 0 exTk exCalls).out =
+      [(0, .executed), (1, .ignored), (3, .upToDate)] ∧
+    decodeBlocks (summary 0 exTk (ReportText.run .console 0 exTk exCalls)) = [0, 0] ∧
+    (ReportText.run .executedOnly 0 exTk exCalls).out.length + 2 = (ReportText.run .console 0 exTk exCalls).out.length ∧
+    (ReportText.run .errorOnly 0 exTk exCalls).out.length = 4 ∧
+    (ReportText.run .zero 0 exTk exCalls).err = ["boom"] := by decide
+
+end Text
 
 end DoitModel.C19
